@@ -75,6 +75,11 @@ def run(tier, seed, replay=None):
     ms = lambda x: EPOCH + datetime.timedelta(milliseconds=x)
     windows = [(None, None), (ms(T * 1000), ms(T * 1000)), (ms(T * 1000 + 1), None), (None, ms(T * 1000 - 1)), (ms(T * 1000 + 250), ms(T * 1000 + 250)),
                (ms(T * 1000 + 251), None), (None, ms(T * 1000 + 249)), (ms(T * 1000 - 5), ms((T + 1) * 1000)), (ms((T + 1) * 1000 + 1), None)]
+    # the same instants given with another UTC offset, or naive (documented as UTC): the window is a set of instants
+    tz = lambda mins: datetime.timezone(datetime.timedelta(minutes=mins))
+    windows += [(ms(T * 1000).astimezone(tz(330)), ms(T * 1000).astimezone(tz(330))), (ms(T * 1000 + 250).astimezone(tz(-180)), None),
+                (None, ms(T * 1000 + 249).astimezone(tz(120))), (ms(T * 1000).replace(tzinfo=None), ms(T * 1000 + 250).replace(tzinfo=None))]
+    inst = lambda x: x.replace(tzinfo=datetime.timezone.utc) if x.tzinfo is None else x
     n = 0
     bad = []
     init_errors = 0
@@ -111,9 +116,9 @@ def run(tier, seed, replay=None):
                     return bool(pd or pm)
                 if not ok:
                     return False
-                if ws is not None and ms(t) < ws:
+                if ws is not None and ms(t) < inst(ws):
                     return False
-                if we is not None and ms(t) > we:
+                if we is not None and ms(t) > inst(we):
                     return False
                 return True
 
@@ -155,9 +160,9 @@ def run(tier, seed, replay=None):
                     intime = True
                     if so or do:
                         t = usable[eff][1]
-                        if ws is not None and ms(t) < ws:
+                        if ws is not None and ms(t) < inst(ws):
                             intime = False
-                        if we is not None and ms(t) > we:
+                        if we is not None and ms(t) > inst(we):
                             intime = False
                     if not (so or do) or not intime:
                         want = None
@@ -184,7 +189,7 @@ def run(tier, seed, replay=None):
     ck.struct("disp.grammar_agrees_with_listing", not bad, "first disagreements: %s" % [b[0] for b in bad[:3]], {"no_input": False})
     ck.struct("disp.rename_is_creation", not [b for b in bad if b[0].startswith("move")], "move conversion wrong: %s" % [b[0] for b in bad if b[0].startswith("move")][:2], {"no_input": False})
     ck.extra["explanation"] = ("exhaustive evaluation of the real DigitalRFEventHandler.dispatch over the property's bounded grammar: %d events "
-                               "(16 names x 5 placements, 36 flag combinations, 9 windows, created/modified/deleted/directory/moved)" % n)
+                               "(16 names x 5 placements, 36 flag combinations, 13 windows incl. other UTC offsets and naive times, created/modified/deleted/directory/moved)" % n)
     ck.extra["exhaustive"] = True
     ck.assumptions += ["the listing side of the comparison is the listing specification that C14 checks lsdrf against",
                        "outside the grammar (not claimed): watchdog compiles the regexes case-insensitively, the filter cannot see the channel kind, a properties file at subdirectory depth is accepted"]
